@@ -903,6 +903,47 @@ func genServerSkel(repo string) (string, error) {
 	}
 	fmt.Fprintf(&b, "Definition gen_register_bracket : list (string * list (string * bool)) :=\n  %s.\n\n",
 		coqList(brackets))
+	// Under which conditions the disconnect notification is installed: for
+	// every defer in ServeBackName whose body calls onDisconnect, the
+	// conditions of the if statements it is nested in (outermost first)
+	// followed by the conditions inside the deferred function around the call.
+	var guards []string
+	if fd := p.funcDecl("Server", "ServeBackName"); fd != nil && fd.Body != nil {
+		var walk func(n ast.Node, conds []string, inDefer bool)
+		walk = func(n ast.Node, conds []string, inDefer bool) {
+			ast.Inspect(n, func(m ast.Node) bool {
+				if m == n {
+					return true
+				}
+				switch x := m.(type) {
+				case *ast.IfStmt:
+					c2 := append(append([]string{}, conds...), p.src(x.Cond))
+					walk(x.Body, c2, inDefer)
+					if x.Else != nil {
+						walk(x.Else, append(append([]string{}, conds...), "!("+p.src(x.Cond)+")"), inDefer)
+					}
+					return false
+				case *ast.DeferStmt:
+					if strings.Contains(p.src(x), "onDisconnect(") {
+						walk(x.Call, conds, true)
+						return false
+					}
+				case *ast.CallExpr:
+					if se, ok := x.Fun.(*ast.SelectorExpr); ok && se.Sel.Name == "onDisconnect" {
+						how := "deferred"
+						if !inDefer {
+							how = "plain"
+						}
+						guards = append(guards, fmt.Sprintf("(%s, %s)", coqStr(how), coqList(quoteAll(conds))))
+					}
+				}
+				return true
+			})
+		}
+		walk(fd.Body, nil, false)
+	}
+	fmt.Fprintf(&b, "Definition gen_disconnect_defer_guard : list (string * list string) :=\n  %s.\n\n", coqList(guards))
+
 	fmt.Fprintf(&b, "Definition gen_unmap_callers : list (string * string) :=\n  %s.\n", coqList(unmapCallers))
 	return b.String(), nil
 }
@@ -932,6 +973,14 @@ func genServerSkel(repo string) (string, error) {
 //
 // Nothing is decided here; Sni/DialSkel.v executes the statements
 // symbolically and Sni/ShutdownDialGen.v states what must come out.
+
+func quoteAll(xs []string) []string {
+	out := make([]string, len(xs))
+	for i, x := range xs {
+		out[i] = coqStr(x)
+	}
+	return out
+}
 
 // wholeWord: w occurs in s not followed or preceded by an identifier character.
 func wholeWord(s, w string) bool {
